@@ -13,14 +13,16 @@ META = dict(
     functions=['lazy_dataset.parallel_utils.single_thread_prefetch', 'lazy_dataset.parallel_utils.lazy_parallel_map (every back end)', 'lazy_dataset.core.PrefetchDataset.__init__'],
     stubs=_e2.STUBS,
     assumptions=_e2.ASSUMPTIONS + ['consumer pauses are schedules in which the consumer is never chosen while it sits at the yield'],
-    bounds=dict(quick='n<=2 (single thread, pools) with buffer<=2, workers<=2: pulled-delivered <= B+2 and started-delivered <= B in every state of every schedule of <= K steps',
+    bounds=dict(quick='n<=2 (single thread, pools) with buffer<=2, workers<=2: pulled-delivered <= B+2 and started-delivered <= B in every state of every schedule; '
+                      'plus single thread n<=6, buffer 1..3: every execution prefix of <= 34 steps',
                 thorough='single thread n<=3, buffer<=3; pools n<=3, buffer<=2, workers<=2'),
-    outside=['dataset lengths above the bound (the invariant is checked up to n<=3; no induction over n is claimed)'],
+    outside=['dataset lengths above the bounds (complete executions: n<=2/3; execution prefixes of <= K steps: n<=6/8 with buffer 1..3/4); no induction over n is claimed'],
 )
 
 
 def extra(tier, seed, ctx):
-    return _e2.run('C07', tier, seed, ctx, lambda g: ['readahead_pulled'] + (['readahead_started'] if g['system'] == 'lpm' else []))
+    return _e2.run('C07', tier, seed, ctx, lambda g: ['readahead_pulled'] + (['readahead_started'] if g['system'] == 'lpm' else []),
+                   extra_groups=_e2.prefix_plan(tier))
 
 
 custom_replay = _e2.custom_replay
